@@ -579,6 +579,18 @@ pub mod router {
 	) -> Result<(usize, u64), usize> {
 		crate::routing::router::verif::max_final_value_msat(hops, channel_saturation_pow_half)
 	}
+
+	/// The accessors of the `CandidateRouteHop::FirstHop` the router builds from `details`:
+	/// `(htlc_minimum_msat, effective_capacity, short_channel_id,
+	/// globally_unique_short_channel_id, (fees.base_msat, fees.proportional_millionths),
+	/// cltv_expiry_delta)`.
+	pub fn first_hop_candidate_view(
+		details: &crate::ln::channel_state::ChannelDetails,
+	) -> (u64, EffectiveCapacity, Option<u64>, Option<u64>, (u32, u32), u32) {
+		let (min, cap, scid, gscid, fees, cltv) =
+			crate::routing::router::verif::first_hop_candidate_view(details);
+		(min, cap, scid, gscid, (fees.base_msat, fees.proportional_millionths), cltv)
+	}
 }
 
 /// `latest_monitor_update_id` of a funded channel: the id of the last `ChannelMonitorUpdate` the
